@@ -254,6 +254,12 @@ def rule_M6(ctx: Ctx) -> None:
               "accessible_cells: None -> all cells; float -> int(fraction * total); int -> itself")
 
 
+def rule_M7(ctx: Ctx) -> None:
+    "metadata inherited from the DFS stage stays true because percolation only adds edges and the arguments are forwarded (C01.B9 re-judged)"
+    from sa.rules.c01 import rule_B9
+    rule_B9(ctx)
+
+
 RULES = [
     Rule("C12.M1", rule_M1, floor=1, doc="fully_connected against the total"),
     Rule("C12.M2", rule_M2, floor=3, doc="recorded set is the loop's set"),
@@ -261,4 +267,5 @@ RULES = [
     Rule("C12.M4", rule_M4, floor=2, doc="component recomputed last"),
     Rule("C12.M5", rule_M5, floor=6, doc="metadata key agreement"),
     Rule("C12.M6", rule_M6, floor=2, doc="accessible-cell bound"),
+    Rule("C12.M7", rule_M7, floor=3, doc="DFS-stage metadata stays true under percolation (union of edges, forwarded arguments)"),
 ]
